@@ -144,6 +144,9 @@ def builtinFn (p : Prog) (fn : String) (args : List Val) : Except String Val :=
   | "Fn1", as => .ok (.str ("fn1/" ++ toString as.length))
   | "FnInt", as => .ok (.int (41 + as.length))
   | "FnFail", _ => .error "fnfail"
+  -- typed fixture functions: the literal arguments are converted to the parameter types (uint, float64 / Duration, Label)
+  | "FnU", [.int a, .int b] => .ok (.str ("u" ++ toString a ++ "/f" ++ toString b))
+  | "FnD", [.int d, .str l] => .ok (.str ("d" ++ toString d ++ "/" ++ l))
   | _, _ => .error ("unknown function " ++ fn)
 
 def baseName (goFn : String) : String := (goFn.splitOn ".").getLast?.getD goFn
